@@ -105,6 +105,9 @@ def gen_c01(tier, seed, native=True):
                         d["cbase"] = rng.choice([5, 40, 300])
                     if rng.random() < 0.5:
                         add_allocs(d, rng, heavy=False)
+                    if "s" in d and rng.random() < 0.08:
+                        d["tsc"] = 0      # the OS timer path (not scriptable): lifecycle / count oracles only
+                        d["n"] = min(d["n"], 3)
                     out.append(line(d))
                     idx += 1
     # panic plans: the benchmarked function panics at every call index of the first two rounds; all threads alike
@@ -212,6 +215,8 @@ def gen_c03(tier, seed):
             d["s"] = rng.choice([1, 2])
         if rng.random() < 0.3 and entry >= 2:
             d["ic"] = [rng.randrange(4)]
+        if rng.random() < 0.1 and d["s"] <= 3 and 0 <= n <= 16:
+            d["tsc"] = 0
         out.append(line(d))
         idx += 1
     # test mode and zero budgets
